@@ -37,6 +37,10 @@ bool make_deep_op(PlanOp& op, Rng& rng, const std::string& key, int target);
 
 Plan single_op_plan(const std::string& property, uint64_t seed, int64_t index, const std::string& mode, const PlanOp& op);
 
+// a fixed-capacity stack reported full (exc 6) although the pinned formula N + EmptyRulesCount + 1 holds the deepest stack
+// the documented driver reaches on this input
+bool capacity_exception_unjustified(const OpResult& o, const ref::RefResult& r);
+
 Violation make_violation(const std::string& prop, const std::string& cls, const std::string& detail, const Plan& p);
 std::string printable(const std::string& s, size_t max = 200);
 
